@@ -70,7 +70,8 @@ def close3f(a, b):
         return True
     if a == b:
         return True
-    return abs(a - b) <= 5.01e-4 + 1e-12 * abs(b)
+    # printed with three decimals (%.3f) or three significant decimals (%.3e): either format is fine
+    return abs(a - b) <= max(5.01e-4, 5.01e-4 * max(abs(a), abs(b)))
 
 
 def expected_kept(rec, sel):
@@ -230,8 +231,9 @@ def check_extract(ctx, files, recs, sel, truth, wit, table_cols, header=True):
         if lines and not all(_isnum(t) for t in lines[0].split()[:3]):
             hdr = lines[0].split()
             lines = lines[1:]
-        if header and (hdr is None or [h.upper() for h in hdr[:3]] != ['CHI2', 'AV', 'SC'] or hdr[3:] != table_cols):
-            ctx.violation('extract:header', 'header does not list CHI2 AV SC and the requested parameter columns', dict(wit, header=hdr))
+        # the header names three fit columns (whatever they are called) followed by the requested parameter columns
+        if header and (hdr is None or len(hdr) != 3 + len(table_cols) or [h.strip().lower() for h in hdr[3:]] != [c_.lower() for c_ in table_cols]):
+            ctx.violation('extract:header', 'header does not list three fit columns followed by the requested parameter columns', dict(wit, header=hdr))
             return
         if not header and hdr is not None:
             ctx.violation('extract:header', 'a header was written although header=False', dict(wit, header=hdr))
@@ -268,7 +270,7 @@ def run(ctx):
                 '0, 1, some, all fits; with/without additional dictionaries; inputs as file, one object, list. a case = one writer call; non-trivial = >=2 selected fits')
     ctx.assume('printed precision: %10.3e -> 5e-4 relative, %10.3f -> 5e-4 absolute', 'selectors whose threshold equals an attained value are skipped (C05 don\'t-care)',
                'parameter values are position-encoding: (model+1)*10^column, so any row mix-up is visible at printed precision')
-    ctx.require_events('FitInfo.filter_table:post', 'text:labels-used', 'text:write_parameters', 'text:write_parameter_ranges', 'text:extract_parameters', 'plot_params:table-checked')
+    ctx.require_events('FitInfo.filter_table:post', 'text:labels-used', 'text:write_parameters', 'text:write_parameter_ranges', 'text:extract_parameters', 'plot_params:table-checked', 'plot_params_2d:points-checked', 'plot_params_1d:histogram-checked')
     ctx.require_regimes('perm:identity', 'perm:reversed', 'perm:random', 'perm:name-sorted', 'selected:0', 'selected:1', 'selected:all', 'additional', 'additional:several', 'parameter:nan', 'extract:subset',
                         'input:file', 'input:object', 'input:list')
     n_pk = 8 if ctx.quick else 40
@@ -379,16 +381,79 @@ def run(ctx):
             did_plot = True
             from sedfitter import plot_params_1d, plot_params_2d
             import matplotlib.pyplot as plt
-            n0 = ctx.events.get('FitInfo.filter_table:post', 0)
+            # what reaches the axes is observed (scatter points / histogram polygons), whichever way the plot obtained its table
+            import matplotlib.axes as maxes
+            drawn = {'scatter': [], 'patch': []}
+            o_sc, o_ap = maxes.Axes.scatter, maxes.Axes.add_patch
+
+            def sc_(self, x, y, *a_, **k_):
+                try:
+                    drawn['scatter'].append((np.array(x, float).ravel(), np.array(y, float).ravel()))
+                except Exception:
+                    pass
+                return o_sc(self, x, y, *a_, **k_)
+
+            def ap_(self, p_):
+                try:
+                    drawn['patch'].append(np.array(p_.get_xy(), float))
+                except Exception:
+                    pass
+                return o_ap(self, p_)
+
             try:
+                maxes.Axes.scatter, maxes.Axes.add_patch = sc_, ap_
+                n0 = ctx.events.get('FitInfo.filter_table:post', 0)
                 plot_params_1d(path, colnames[0], output_dir=os.path.join(d, 'p1d'), select_format=('N', 3), format='png', log_x=False)
-                plot_params_2d(list(infos), colnames[0], colnames[-1], output_dir=os.path.join(d, 'p2d'), select_format=('A', 0), format='png',
+                if ctx.events.get('FitInfo.filter_table:post', 0) > n0:
+                    ctx.event('plot_params:table-checked')
+                patches = list(drawn['patch'])
+                drawn['patch'] = []
+                n0 = ctx.events.get('FitInfo.filter_table:post', 0)
+                plot_params_2d(list(infos), colnames[0], colnames[-1], output_dir=os.path.join(d, 'p2d'), select_format=('N', 2), format='png',
                                log_x=False, log_y=False)
                 if ctx.events.get('FitInfo.filter_table:post', 0) > n0:
                     ctx.event('plot_params:table-checked')
             except Exception as exc:
                 ctx.violation('plot_params:raised', 'parameter plot raised: %r' % (exc,), dict(perm=kind))
+                patches = None
+            finally:
+                maxes.Axes.scatter, maxes.Axes.add_patch = o_sc, o_ap
             plt.close('all')
+            if patches is not None:
+                # 2-D: one scatter per source holding (x, y) of every selected fit's model
+                pts = [p_ for p_ in drawn['scatter'] if p_[0].size]
+                if len(pts) >= len(recs):
+                    for r_, (xs, ys) in zip(recs, pts[-len(recs):]):
+                        mn = [str(x_).strip() for x_ in r_['model_name'][:expected_kept(r_, ('N', 2))[0]]]
+                        want = sorted((truth['rows'][m][colnames[0]], truth['rows'][m][colnames[-1]]) for m in mn if np.isfinite(truth['rows'][m][colnames[0]]) and np.isfinite(truth['rows'][m][colnames[-1]]))
+                        got = sorted(g_ for g_ in zip(xs.tolist(), ys.tolist()) if np.isfinite(g_[0]) and np.isfinite(g_[1]))
+                        ctx.event('plot_params_2d:points-checked')
+                        if len(got) != len(want) or any(abs(g_[0] - w_[0]) > 2e-6 * abs(w_[0]) + 1e-30 or abs(g_[1] - w_[1]) > 2e-6 * abs(w_[1]) + 1e-30
+                                                          for g_, w_ in zip(got, want)):
+                            ctx.violation('plot_params_2d:wrong-points', 'the points drawn for a source are not the parameter values of the models of its selected fits',
+                                          dict(perm=kind, source=r_['source']['name'], drawn=got[:4], expected=want[:4]))
+                            break
+                # 1-D: the hatched histogram drawn for a source holds exactly its selected fits, each in the bin of its model's value
+                polys = [p_ for p_ in patches if p_.ndim == 2 and p_.shape[0] >= 6]
+                if len(polys) >= 1 + len(recs):
+                    for r_, poly in zip(recs, polys[-len(recs):]):
+                        cnt, _nd = expected_kept(r_, ('N', 3))
+                        mn = [str(x_).strip() for x_ in r_['model_name'][:cnt]]
+                        vals = np.array([truth['rows'][m][colnames[0]] for m in mn], float)
+                        vals = vals[np.isfinite(vals)]
+                        xe, ye = poly[:-3:2, 0], poly[:-3:2, 1]          # left edge and height of every bin
+                        xr = poly[1:-2:2, 0]
+                        counts = np.where(ye >= 0.5, np.round(ye), 0.0)
+                        ctx.event('plot_params_1d:histogram-checked')
+                        bad = int(counts.sum()) != len(vals)
+                        for v_ in vals:
+                            inbin = (xe * (1 - 2e-6) - 1e-30 <= v_) & (v_ <= xr * (1 + 2e-6) + 1e-30) if np.all(xe >= 0) else (xe - 2e-6 * np.abs(xe) <= v_) & (v_ <= xr + 2e-6 * np.abs(xr))
+                            if not np.any(inbin & (counts >= 1)):
+                                bad = True
+                        if bad:
+                            ctx.violation('plot_params_1d:wrong-histogram', 'the histogram drawn for a source does not hold the parameter values of the models of its selected fits',
+                                          dict(perm=kind, source=r_['source']['name'], values=vals, bin_left=xe, counts=counts))
+                            break
         CUR.update(params=None)
         ctx.rmdir(d)
 
